@@ -564,6 +564,46 @@ def std_files(root):
 
 
 # ------------------------------------------------------------------ helper table (introspection of hugr.std.*)
+SIG_ERRORS: list = []
+
+
+def subst_json(x, args):
+    """substitutes type arguments (serial JSON) for the variables of a serial type expression"""
+    if isinstance(x, list):
+        return [subst_json(y, args) for y in x]
+    if isinstance(x, dict):
+        if x.get("tya") == "Variable" and x.get("idx") is not None and x["idx"] < len(args):
+            return args[x["idx"]]
+        if x.get("t") == "V" and x.get("i") is not None and x["i"] < len(args) and args[x["i"]].get("tya") == "Type":
+            return args[x["i"]]["ty"]
+        return {k: subst_json(v, args) for k, v in x.items()}
+    return x
+
+
+def helper_sig_mismatch(o):
+    """None, or what differs between the helper's cached signature and its definition's signature at its args"""
+    try:
+        cs = o.cached_signature()
+        pf = o.op_def().signature.poly_func
+        if cs is None or pf is None:
+            return None
+        args = [a._to_serial_root().model_dump(mode="json") for a in o.type_args()]
+        if len(args) != len(pf.params):
+            return {"what": "number of type arguments", "args": len(args), "params": len(pf.params)}
+        want = subst_json(pf.body._to_serial().model_dump(mode="json"), args)
+        got = cs._to_serial().model_dump(mode="json")
+        if "\"t\": \"R\"" in json.dumps(want):          # row variables: substitution changes arity, not handled here
+            return None
+        for k in ("input", "output"):
+            if want[k] != got[k]:
+                return {"what": k + " row", "definition_at_args": want[k], "helper": got[k]}
+        if not set(want.get("runtime_reqs", [])) <= set(got.get("runtime_reqs", [])):
+            return {"what": "runtime requirements", "definition_at_args": want.get("runtime_reqs"), "helper": got.get("runtime_reqs")}
+        return None
+    except Exception as e:  # noqa: BLE001
+        return {"what": "raised " + type(e).__name__}
+
+
 def argkind(a, I):
     from hugr import tys
     if isinstance(a, tys.TypeTypeArg):
@@ -586,6 +626,8 @@ def helper_rows(I, notes):
     import hugr.std
     from hugr import ext, ops, tys, val
     rows, errors = [], []
+    sig_errors = SIG_ERRORS
+    del sig_errors[:]
 
     def type_row(label, t):
         rows.append((label, "HType", t.type_def.get_extension().name, t.type_def.name, [argkind(a, I) for a in t.args], []))
@@ -641,6 +683,10 @@ def helper_rows(I, notes):
     def op_row(lab, o):
         od = o.op_def()
         rows.append((lab, "HOp", od.get_extension().name, od.name, [argkind(a, I) for a in o.type_args()], []))
+        # the helper's concrete signature must be the definition's signature instantiated at its type arguments
+        bad = helper_sig_mismatch(o)
+        if bad is not None:
+            sig_errors.append({"helper": lab, **bad})
 
     mods = sorted(m.name for m in pkgutil.walk_packages(hugr.std.__path__, "hugr.std.") if not m.name.split(".")[-1].startswith("_"))
     for mn in mods:
@@ -1093,6 +1139,10 @@ class C10(fw.Prop):
                 out.append(("helper-table", "a typed helper of hugr.std does not denote a definition of the bundled files with matching parameters",
                             {"failing_input": {"helper": lab, "kind": kind, "extension": e, "definition": d, "args": args, "extensions": exts},
                              "signature": "ext:std:helper"}))
+        for e in SIG_ERRORS[:5]:
+            out.append(("helper-table", "a typed operation helper's concrete signature is not its definition's signature at its type arguments",
+                        {"failing_input": e, "signature": "ext:std:helper-signature"}))
+        ctx.stats["helper_signature_checks"] = "cached_signature == definition body with type_args substituted (JSON level), for every operation helper row"
         if len(rows) < 20:
             out.append(("helper-table", "helper table unexpectedly small", {"failing_input": {"rows": len(rows)}, "signature": "ext:std:helper-count"}))
         ctx.stats["helper_rows"] = [r[0] for r in rows]
